@@ -431,11 +431,17 @@ def build_model(pat, edges, rng, with_cpds=True):
     return m, vn
 
 
+_FRAMES = []      # (frame, snapshot) of every data frame handed to the library in the current case (C16: never changed by the call)
+
+
 def _frame(rows, cols, vn, rng):
     import pandas as pd
     from ..concretise import shuffled
+    from ..frames import df_snapshot
     cols = shuffled(cols, rng)
-    return pd.DataFrame({vn[c]: [float(_f(r[c])) for r in rows] for c in cols}, columns=[vn[c] for c in cols])
+    df = pd.DataFrame({vn[c]: [float(_f(r[c])) for r in rows] for c in cols}, columns=[vn[c] for c in cols])
+    _FRAMES.append((df, df_snapshot(df)))
+    return df
 
 
 def call_joint(m, vn):
@@ -841,7 +847,13 @@ def work(payload):
     fails, calls, n = [], 0, 0
     pats = {p["id"]: p for p in payload.get("pats", [])}
     for case, seed in payload.get("lgbn", []):
+        del _FRAMES[:]
         calls += replay_lgbn_case(pats[case["pat"]], case, seed, fails, hs)
+        from ..frames import df_snapshot
+        if any(df_snapshot(df_) != sn_ for df_, sn_ in _FRAMES):
+            fails.append({"api": "LinearGaussianBayesianNetwork." + case["out"]["kind"], "clause": "data_argument_changed", "features": {},
+                          "case": {"kind": "lgbn", "pat": pats[case["pat"]], "case": case, "seed": seed, "hashseed": hs},
+                          "observed": None, "expected": "the data frame as passed in"})
         n += 1
     for case, seed in payload.get("gd", []):
         calls += replay_gd_case(case, seed, fails, hs)
